@@ -928,7 +928,7 @@ func dynamicScenario(r *lib.RNG, i int) Scenario {
 		case 0:
 			reqBase += uint64(r.Range(1, 40))
 		case 1:
-			h := r.Range(0, length+depth-add)
+			h := r.Range(0, max(0, length+depth-add))
 			t.AtHeight = &h
 			reqBase += 300
 		case 2:
